@@ -73,6 +73,7 @@ class Sched:
         self.env = None
         self.trace = []  # names of the participants in the order they ran (compressed)
         self.max_steps = 50 * max(horizon, 20000)
+        self.in_pred = False
         self.vclock = 0.0   # virtual wall clock for plain threads (see vsleep)
         self.sleepers = {}  # tid -> wake time
 
@@ -146,6 +147,13 @@ class Sched:
             self._fail(e)
 
     def _enabled(self, me):
+        self.in_pred = True
+        try:
+            return self._enabled_inner(me)
+        finally:
+            self.in_pred = False
+
+    def _enabled_inner(self, me):
         en = []
         for t in self.threads:
             if t.done:
@@ -405,28 +413,39 @@ class CQueue:
 
 
 class CFuture(concurrent.futures.Future):
+    def _done(self):
+        return concurrent.futures.Future.done(self)
+
+    def done(self):
+        # reading the state of a future that another thread completes is a shared access:
+        # a scheduling point when the code under test does it (never inside a scheduler predicate)
+        s = cur()
+        if s is not None and not s.in_pred and not s.aborting:
+            s.point('fut-done?')
+        return concurrent.futures.Future.done(self)
+
     def result(self, timeout=None):
-        if not self.done():
-            SCHED.block_until(self.done, 'fut-result')
+        if not self._done():
+            SCHED.block_until(self._done, 'fut-result')
         else:
             SCHED.point('fut-result')
         return super().result(0)
 
     def exception(self, timeout=None):
-        if not self.done():
-            SCHED.block_until(self.done, 'fut-exc')
+        if not self._done():
+            SCHED.block_until(self._done, 'fut-exc')
         return super().exception(0)
 
 
 def c_as_completed(fs, timeout=None):
     pending = list(fs)
     while pending:
-        if not any(f.done() for f in pending):
-            SCHED.block_until(lambda: any(f.done() for f in pending), 'as-completed')
+        if not any(f._done() for f in pending):
+            SCHED.block_until(lambda: any(f._done() for f in pending), 'as-completed')
         else:
             SCHED.point('as-completed')
         for f in list(pending):
-            if f.done():
+            if f._done():
                 pending.remove(f)
                 yield f
 
